@@ -56,7 +56,7 @@ example :
     let c : Cfg := { n := 2, srcEnd := .clean, cap := 1, conc := 2, preFail := fun _ => false,
                      resErr := fun _ => false, returnExc := false }
     ∃ s, Reachable c s ∧ s.cpc = .closed ∧ s.out = [0, 1] ∧ s.raised = none := by
-  refine ⟨_, ⟨[.pull, .fcheck, .submit, .put, .pull, .fcheck, .submit, .put, .start, .start,
+  refine ⟨_, ⟨[.pull, .fcheck, .submit, .put, .pull, .fcheck, .submit, .put, .start 0, .start 1,
               .finish 1, .get, .finish 0, .yld, .next, .get, .yld, .next, .srcEnd, .putEnd, .get,
               .drainEmpty, .join], rfl⟩, ?_⟩
   decide
